@@ -9,6 +9,7 @@ class C05(common.SpecCheck):
     pid = "C05"
     title = "Cascaded Einsums compose and are compiled independently of their predecessors"
     unit_fn = "units:c05_unit"
+    QUICK = {"nseeds": 8, "specs": 100, "round": 100, "budget": 0}
     rule = ("class-K cascades of 2-4 Einsums (per-Einsum shape / occupancy partitioning, loop orders, rank orders, "
             "optional spacetime) x hash-seed pool. History = which Einsums were translated earlier on the same "
             "Program/TransUtils/Tensor objects: EVERY subsequence of the cascade (<= 15) is compiled and the text of "
